@@ -221,6 +221,19 @@ def probes(rep, r, n):
                 if not (s2 == s0 or (math.isnan(s2) and math.isnan(s0))):
                     rep.violation('not-blind', f'value stored in masked/zero-weight pixels changed the sum: {s0} -> {s2}',
                                   sig_case(c))
+            # error maps held in small integer dtypes (counts): the quadrature sum is taken over the VALUES, squares that do not fit the
+            # dtype included (uint8 > 15, int16 > 181, uint16 > 255)
+            if k % 3 == 0:
+                dt = [np.uint8, np.int16, np.uint16][(k // 3) % 3]
+                top = {np.uint8: 200, np.int16: 30000, np.uint16: 60000}[dt]
+                rs_ = np.random.RandomState(r.randrange(2 ** 31))
+                erri = rs_.randint(top // 2, top, size=data.shape).astype(dt)
+                ei = ap.do_photometry(data, error=erri, **kw)[1][0]
+                ef = ap.do_photometry(data, error=erri.astype(np.float64), **kw)[1][0]
+                rep.count(f'integer-error-probe:{np.dtype(dt).name}')
+                if not same(ei, ef, max(1.0, abs(float(ef)) if np.isfinite(ef) else 1.0), rel=1e-12):
+                    rep.violation(f'integer-error-map:{np.dtype(dt).name}', f'aperture_sum_err = {ei} for a {np.dtype(dt).name} error map but {ef} for the same '
+                                  'values as float64', dict(sig_case(c), error=erri.tolist(), error_dtype=np.dtype(dt).name))
             # batch == singles; list of apertures == individually; NDData == arrays
             pos = [(c['p']['cx'], c['p']['cy']), (c['p']['cx'] + 1.5, c['p']['cy'] - 2.0), (-30.0, 4.0)]
             ap3 = CircularAperture(pos, 1.5)
@@ -259,10 +272,14 @@ def probes(rep, r, n):
             apin = type(ap)((20.3 + (c['p']['cx'] % 1), 17.6 + (c['p']['cy'] % 1)), **shape_kw)
             if apin.bbox.ixmin >= 0 and apin.bbox.iymin >= 0 and apin.bbox.ixmax <= 44 and apin.bbox.iymax <= 40:
                 a_in = float(np.asarray(apin.area_overlap(big, method=c['method'], subpixels=c['sub'])))
-                w_in = float(apin.to_mask(method=c['method'], subpixels=c['sub']).data.sum())
+                wts_in = apin.to_mask(method=c['method'], subpixels=c['sub']).data
+                if wts_in.min() < 0 or wts_in.max() > 1:
+                    rep.count('skipped:fully-inside:weights-outside-[0,1] (F20)')     # the sums drop pixels of non-positive weight
+                    wts_in = None
+                w_in = float(wts_in.sum()) if wts_in is not None else None
                 s_in = float(np.asarray(apin.do_photometry(big, method=c['method'], subpixels=c['sub'])[0][0]))
                 rep.count('fully-inside-area-probe')
-                if not (same(a_in, w_in, rel=1e-12) and same(s_in, w_in, rel=1e-12)):
+                if w_in is not None and not (same(a_in, w_in, rel=1e-12) and same(s_in, w_in, rel=1e-12)):
                     rep.violation(f'area-mismatch:fully-inside:{c["kind"]}', f'{c["kind"]} entirely inside the image, method {c["method"]}: area_overlap = {a_in}, '
                                   f'photometry of an image of ones = {s_in}, sum of the mask weights = {w_in}', dict(sig_case(c), inside=True))
             ann = CircularAnnulus(pos, 1.0, 2.5)
